@@ -32,6 +32,8 @@ type pProp struct {
 	timeout time.Duration
 	race    bool
 	accept  func(gp *genParser) bool
+	dkey    func(req *parsersim.Request, resp *parsersim.Response) string
+	restart int // restart the child process every so many cases (0: never)
 }
 
 func runParserProp(pp *pProp, tier string) int {
@@ -68,7 +70,7 @@ func runParserProp(pp *pProp, tier string) int {
 	if to == 0 {
 		to = 120 * time.Second
 	}
-	outs := runParserCases(pw, reqs, to, env)
+	outs := runParserCases(pw, reqs, to, env, pp.restart)
 
 	runs, cases := 0, 0
 	distinct := map[string]bool{}
@@ -82,7 +84,12 @@ func runParserProp(pp *pProp, tier string) int {
 			msg := fmt.Sprintf("the simulation child %s while running %s: %s", o.Status, reqs[i].ID, firstLine(lastFatal(o.Detail)))
 			if strings.Contains(o.Detail, "DATA RACE") {
 				class = "data-race"
-				msg = "the Go race detector reported a data race under the simulated schedule:\n" + raceExcerpt(o.Detail)
+				ex := raceExcerpt(o.Detail)
+				msg = "the Go race detector reported a data race under the simulated schedule:\n" + ex
+				if !strings.Contains(ex, "/pw/p") && !strings.Contains(ex, "/pw-race/p") {
+					// both stacks inside the harness: our defect, never a verdict
+					fatalHarness("race report without a frame in a generated parser (harness race):\n%s\n---- raw ----\n%s", ex, o.Detail)
+				}
 			}
 			v := &violation{Property: pp.id, Class: class, Message: msg,
 				Attrs: map[string]string{"class": class, "dedupe": class + "|" + gp.Name}, Seed: seed, Case: reqs[i].ID, Kind: "parser",
@@ -93,7 +100,11 @@ func runParserProp(pp *pProp, tier string) int {
 		}
 		runs += o.Resp.Runs
 		if pp.nontriv == nil || pp.nontriv(o.Resp) {
-			distinct[fmt.Sprintf("%s|%q|%s", gp.Text, reqs[i].Call.Input, mustJSON(reqs[i].Call.Opts))] = true
+			if pp.dkey != nil {
+				distinct[pp.dkey(reqs[i], o.Resp)] = true
+			} else {
+				distinct[fmt.Sprintf("%s|%q|%s", gp.Text, reqs[i].Call.Input, mustJSON(reqs[i].Call.Opts))] = true
+			}
 		}
 		if len(samples) < 4 && o.Resp.Sample != nil && i%(len(outs)/4+1) == 0 {
 			samples = append(samples, map[string]any{"case": o.Resp.Sample, "grammar": specSummary(gp)["grammar"]})
